@@ -786,3 +786,36 @@ Proof.
   destruct (mrun true m_empty ops) as [m' rs]. destruct R as (_ & R).
   change (m_abs m_empty) with c_empty in R. rewrite R. reflexivity.
 Qed.
+
+(* ================================================================ the checker's storage (vstor) *)
+
+Theorem vstor_step_refines c o :
+  c_closed c = false -> dev_vstor c o = false ->
+  vstep c o = cstep c o /\ c_closed (fst (vstep c o)) = false.
+Proof.
+  intros Hc D.
+  assert (Hstep : forall o', (match o' with SClose => False | _ => True end) -> c_closed (fst (cstep c o')) = false).
+  { intros o' Ho. destruct o'; try contradiction; cbn [cstep]; rewrite ?Hc;
+      repeat match goal with
+             | |- context [match ?x with _ => _ end] => destruct x
+             end; cbn [fst c_closed with_hs with_dir]; auto. }
+  destruct o; cbn [vstep dev_vstor] in *; try discriminate;
+    try (split; [reflexivity|apply Hstep; exact Logic.I]).
+  cbn [cstep]. rewrite Hc. destruct (c_meta c) as [f|]; [|auto].
+  destruct (dlookup f (c_dir c)); [auto|discriminate].
+Qed.
+
+Fixpoint vstor_dev_free (c : cst) (ops : list sop) : bool :=
+  match ops with
+  | [] => true
+  | o :: ops' => negb (dev_vstor c o) && vstor_dev_free (fst (vstep c o)) ops'
+  end.
+
+Theorem vstor_run_refines : forall ops c,
+  c_closed c = false -> vstor_dev_free c ops = true -> vrun c ops = crun c ops.
+Proof.
+  induction ops as [|o ops IH]; intros c Hc D; cbn [vrun crun]; [reflexivity|].
+  cbn [vstor_dev_free] in D. apply andb_prop in D. destruct D as (D1 & D2). apply negb_true_iff in D1.
+  destruct (vstor_step_refines c o Hc D1) as (E & Hc'). rewrite <- E.
+  destruct (vstep c o) as [c1 r]. cbn [fst] in *. rewrite (IH c1 Hc' D2). reflexivity.
+Qed.
